@@ -77,6 +77,8 @@ def main():
         dirs = sorted(os.path.dirname(p) for p in glob.glob(os.path.join(args[1], '*', '*', 'patch.diff')))
     elif args and args[0] == '--kept':
         dirs = sorted(os.path.dirname(p) for p in glob.glob('/verif/seeded/*/patch.diff'))
+    elif args and args[0] == '--merge':
+        dirs = args[1:]
     else:
         dirs = args
     caught = 0
@@ -103,7 +105,11 @@ def main():
                 for p, m in list(r['errors'].items())[:2]:
                     print(f'     ERR {p}: {m}')
     print(f'caught {caught}/{len(dirs)}')
-    if args and args[0] == '--kept':
+    if args and args[0] == '--merge':
+        full = json.load(open('/verif/seeded/RESULTS.json'))
+        full.update(table)
+        table = full
+    if args and args[0] in ('--kept', '--merge'):
         with open('/verif/seeded/RESULTS.json', 'w') as f:
             json.dump(table, f, indent=1, sort_keys=True)
 
